@@ -21,11 +21,13 @@ fi
 $APPLY "$SD/patch.diff" >/dev/null 2>&1; git reset -q 2>/dev/null
 if [ -z "${SEED_SKIP_CONFIRM:-}" ]; then
   if go build ./... >/dev/null 2>&1 && go test -vet=off -count=1 ./... >"$VS/suite.log" 2>&1; then echo "CONFIRM suite-with-change: pass"; else echo "CONFIRM suite-with-change: FAIL"; tail -5 "$VS/suite.log"; fi
+  if [ -f "$SD/demo_test.go" ]; then
   cp "$SD/demo_test.go" "$WT/$DEST"
   if (cd "$(dirname "$WT/$DEST")" && go test -vet=off -count=1 -run "$RUN" . >"$VS/demo1.log" 2>&1); then echo "CONFIRM demo-with-change: pass (NOT a valid seed)"; else echo "CONFIRM demo-with-change: fail (as required)"; fi
   git checkout -q -- . 
   if (cd "$(dirname "$WT/$DEST")" && go test -vet=off -count=1 -run "$RUN" . >"$VS/demo0.log" 2>&1); then echo "CONFIRM demo-without-change: pass (as required)"; else echo "CONFIRM demo-without-change: FAIL (NOT a valid seed)"; tail -5 "$VS/demo0.log"; fi
   rm -f "$WT/$DEST"
+  fi
   $APPLY "$SD/patch.diff" >/dev/null 2>&1; git reset -q 2>/dev/null
 fi
 # committed state of /verif only (the working tree may be mid-edit)
